@@ -6,6 +6,7 @@
     eventually ready. *)
 From Coq Require Import List NArith Bool String.
 From Verif Require Import Sni.SchedSkel Sni.Shutdown Sni.ShutdownEndpoint Sni.ShutdownCfg Gen.TransportSkel.
+From Verif Require Import Sni.ShutdownClose.
 Import ListNotations.
 Local Open Scope string_scope.
 
@@ -351,3 +352,19 @@ Definition frozen_newEndpoint : list string :=
 
 Lemma gen_newEndpoint_frozen : skel_is gen_transport_skel "newEndpoint" frozen_newEndpoint = true.
 Proof. vm_compute. reflexivity. Qed.
+
+(** ** endpointClient.Close is bounded by its time-out (Sni/ShutdownClose.v)
+
+    Every blocking point of transport.shutdown -- every select and every bare
+    channel receive, on whatever path -- has an arm on the caller's context;
+    endpointClient.Close and transport.startShutdown wait nowhere else; the
+    context Close passes has a time-out and c.conn.Close() follows
+    unconditionally ([gen_clientClose_frozen]). *)
+Lemma gen_shutdown_points_timed : points_timed gen_clpoints = true.
+Proof. vm_compute. reflexivity. Qed.
+
+Lemma gen_close_waits_nowhere_else :
+  points_of "endpointClient.Close" gen_transport_blocking = [] /\
+  points_of "transport.startShutdown" gen_transport_blocking = [] /\
+  gen_clpoints = [[ARecv "ctx.Done()"; ARecv "tr.serveDone"]].
+Proof. vm_compute. repeat split. Qed.
